@@ -4,6 +4,7 @@
 //
 //	fe <item,item,…>           firstEvent alone (hook), values fed in exactly this order.
 //	                           item = data:blockN:tx:logIndex:removed:payload | x (a value that is not a *LogCommon)
+//	tw <ms> <tok,tok,…>        firstEvent with its expiry timers firing (window.go)
 //	mg <stream/stream/…>       merge + firstEvent (hooks), one goroutine per stream feeding concurrently; output compared as a set
 //	sub <nws> <types> <H> <S> <drop>
 //	                           a real adaptor (its own Connect) subscribed to <types> on <nws> in-process websocket
@@ -24,6 +25,7 @@ import (
 	"os"
 	"reflect"
 	"sort"
+	"strconv"
 	"strings"
 	"sync"
 	"sync/atomic"
@@ -85,7 +87,11 @@ func parseItem(s string) item {
 	}
 	var bn uint64
 	fmt.Sscanf(p[1], "%d", &bn)
-	return item{data: h.UnHex(p[0]), blockN: bn, tx: h.UnHex(p[2]), index: uint(h.Atoi(p[3])), removed: p[4] == "1", payload: p[5]}
+	ix, err := strconv.ParseUint(p[3], 10, 64)
+	if err != nil {
+		panic("bad log index " + p[3])
+	}
+	return item{data: h.UnHex(p[0]), blockN: bn, tx: h.UnHex(p[2]), index: uint(ix), removed: p[4] == "1", payload: p[5]}
 }
 
 func parseItems(s string) []item {
@@ -914,6 +920,8 @@ func exec(line string) (res h.Result) {
 		return execFE(w)
 	case "mg":
 		return execMG(w)
+	case "tw":
+		return execTW(w)
 	case "sub":
 		return execSub(w)
 	case "ent":
